@@ -480,3 +480,21 @@ Definition model_ok (M : smodel) : bool :=
 (** schema definitions of a parsed document carry a real (non built-in) position *)
 Definition parsed_positions (D : tsdoc) : Prop := Forall (fun sd => pbuiltin (sd_pos sd) = false) (schema_defs D).
 Definition parsed_positions_b (D : tsdoc) : bool := forallb (fun sd => negb (pbuiltin (sd_pos sd))) (schema_defs D).
+
+(** deprecations removed (type_system_to_ast produces an AST without directives) *)
+Definition strip_input (i : sinput) : sinput := mkSInput (si_name i) (si_desc i) (si_type i) (si_default i) None.
+Definition strip_field (f : sfield) : sfield := mkSField (sf_name f) (sf_desc f) (sf_type f) (map strip_input (sf_args f)) None.
+Definition strip_typedef (d : stypedef) : stypedef :=
+  match d with
+  | SDObject n ds fs is_ => SDObject n ds (map strip_field fs) is_
+  | SDInterface n ds fs is_ => SDInterface n ds (map strip_field fs) is_
+  | SDEnum n ds ms => SDEnum n ds (map (fun e => mkSMember (sm_name e) (sm_desc e) None) ms)
+  | SDInput n ds fs => SDInput n ds (map strip_input fs)
+  | d => d
+  end.
+
+(** every entry of the type table is filed under the name of its definition (an invariant of both front ends) *)
+Definition keys_match (sc : schema) : Prop :=
+  Forall (fun kv => fst kv = nval (stypedef_name (nval (snd kv)))) (sc_types sc).
+Definition keys_match_b (sc : schema) : bool :=
+  forallb (fun kv => str_eqb (fst kv) (nval (stypedef_name (nval (snd kv))))) (sc_types sc).
